@@ -602,7 +602,7 @@ func (g *Gen) genLeafIO() (Op, bool) {
 	}
 	l := live[g.R.IntN(len(live))]
 	ks := []string{"LeafOpenSelf", "LeafGetAttributes", "LeafSetAttributes", "LeafIO", "LeafIO", "LeafUpload", "LeafOpenReadFrozen"}
-	return Op{K: ks[g.R.IntN(len(ks))], L: l.ID, Trunc: g.chance(0.3), FailIO: g.chance(0.35)}, true
+	return Op{K: ks[g.R.IntN(len(ks))], L: l.ID, Trunc: g.chance(0.3), FailIO: g.chance(0.35), Salt: g.R.Uint64()}, true
 }
 
 func (g *Gen) genExtra() (Op, bool) {
